@@ -20,7 +20,7 @@ def _init(fn, ctx):
 def _call(arg):
     try:
         return _FN(_CTX, arg)
-    except Exception:
+    except BaseException:  # noqa: BLE001 - a SystemExit/KeyboardInterrupt in a worker must not hang the pool
         return ("ERR", traceback.format_exc())
 
 
